@@ -101,9 +101,14 @@ def _run_one(prop, tier, name, seed):
                 d = info.detail or {}
                 out['violations'].append({'msg': info.msg, 'key': d.get('key'), 'replay': jsonable(d.get('replay')),
                                           'detail': jsonable({k: v for k, v in d.items() if k not in ('replay', 'key')})})
+            elif kind == 'candidate':
+                d = info.detail or {}
+                out['violations'].append({'msg': info.msg, 'key': d.get('key'), 'replay': jsonable(d.get('replay')), 'candidate': True, 'detail': {}})
             elif kind == 'fuel':
                 out['violations'].append({'msg': 'loop budget exhausted outside a harness guard', 'key': None, 'replay': None})
         out['requires'] = nreq
+        if ex.inconclusive:
+            out['inconclusive_reason'] = ex.inconclusive
         if out['violations']:
             out['verdict'] = 'violated'
         elif ex.inconclusive:
@@ -248,8 +253,9 @@ def check(prop, tier, seed=0, only=None, jobs=None):
         for v in sorted(todo, key=lambda v: len(json.dumps(v.get('replay'), default=str))):
             if not v.get('replay'):
                 continue
-            k = v.get('key')
-            if per_key.get(k, 0) < 5 and len(chosen) < 20:
+            k = (bool(v.get('candidate')), v.get('key'))
+            ncls = sum(1 for c in chosen if bool(c.get('candidate')) == k[0])
+            if per_key.get(k, 0) < 5 and ncls < (8 if k[0] else 20):
                 per_key[k] = per_key.get(k, 0) + 1
                 chosen.append(v)
         rr = run_replays([dict(v['replay'], property=prop) for v in chosen])
@@ -290,6 +296,8 @@ def check(prop, tier, seed=0, only=None, jobs=None):
             if not confirmed_any:
                 r['verdict'] = 'inconclusive'
                 r['reason'] = 'witness did not reproduce on the real build (%d)' % unconfirmed
+                if r.get('inconclusive_reason'):
+                    r['reason'] = '%s; %s' % (r['inconclusive_reason'], r['reason'])
             elif all_known and unconfirmed == 0:
                 r['verdict'] = 'holds-except-known'
             elif all_known:
@@ -327,6 +335,8 @@ def check(prop, tier, seed=0, only=None, jobs=None):
 
 
 def write_evidence(prop, tier, seed, results, validated, n_viol, wall, mod, selfres=None):
+    if os.path.realpath(os.environ.get('REPO', '/repo')) != '/repo':
+        return          # a scratch copy is being analysed (bin/mutant, bin/eval-seed): evidence describes /repo only
     os.makedirs(os.path.join(ROOT, 'evidence'), exist_ok=True)
     nh = sum(1 for r in results if r['verdict'] in ('holds', 'holds-except-known'))
     samples = []
